@@ -158,7 +158,12 @@ func (s *socket) Construct(id string, server BaseServer, transport transports.Tr
 
 // Called upon transport considered open.
 func (s *socket) onOpen() {
-	s.SetReadyState("open")
+	// the transport's listeners are attached and its reader is running: the peer may already be
+	// gone and the session closed. Such a session stays closed (test and set in one step)
+	socket_log.Debug("readyState updated from %s to %s", s.ReadyState(), "open")
+	if !s.readyState.CompareAndSwap("opening", "open") {
+		return
+	}
 
 	// sends an `open` packet
 	s.Transport().SetSid(s.id)
